@@ -26,7 +26,9 @@ Spec == Init /\ [][Next]_vars
 View == <<pos, root>>
 
 \* ---- layer R against itself
-RootsValid == \A i \in SeqToSet(RootIdx) : ValidPosition(PosOfJson(ROOTS[i].pos))
+RootsValid == { i \in SeqToSet(RootIdx) :
+                 LET p == PosOfJson(ROOTS[i].pos) IN
+                 ~ValidPosition(p) /\ PrintT(<<"INVALID-ROOT", ROOTS[i].name, InvalidReason(p)>>) } = {}
 ASSUME RootsValid
 ValidInductive == ValidPosition(pos)
 MirrorSymmetric == Codes(Legal(Mirror(pos))) = { Code(MirrorMove(m)) : m \in Legal(pos) }
